@@ -119,8 +119,16 @@ func isResponseHeader(v ssa.Value) bool {
 }
 
 func runC13(c *Ctx) {
+	// clause shared with C06: RPC-style paths are looked up in their decoded form
+	defer c.ImportRules("C06", "C06.3")
+	// clause shared with C16: a flusher is demanded only of transformed responses
+	defer c.ImportRules("C16", "C16.2")
 	p := c.P
-	entry := serveHTTP(p)
+	defer runC13RegistryLookupMatchesAdapter(c)
+	defer runC13NotFoundIsTheSentinel(c)
+	defer runC13ClassificationIgnoresParseErrors(c)
+	entry := entryBody(p)
+	outer := serveHTTP(p)
 	opT := p.MustNamed("operation")
 	_ = opT
 
@@ -138,8 +146,32 @@ func runC13(c *Ctx) {
 		args := d.Common().Args
 		w, r := args[len(args)-2], args[len(args)-1]
 		okW := false
-		if prm, ok := strip(w).(*ssa.Parameter); ok && prm == entry.Params[1] {
-			okW = true
+		if prm, ok := strip(w).(*ssa.Parameter); ok {
+			if entry == outer && prm == entry.Params[1] {
+				okW = true
+			}
+			if entry != outer {
+				// the entry point's body lives in a helper: its parameter is the client's writer if
+				// every call of the helper passes ServeHTTP's own ResponseWriter parameter there
+				idx := -1
+				for i, q := range entry.Params {
+					if q == prm {
+						idx = i
+					}
+				}
+				sites := 0
+				okW = idx >= 0
+				for _, call := range Calls(outer) {
+					if call.Common().StaticCallee() != entry {
+						continue
+					}
+					sites++
+					if a, isP := strip(call.Common().Args[idx]).(*ssa.Parameter); !isP || a != outer.Params[1] {
+						okW = false
+					}
+				}
+				okW = okW && sites > 0
+			}
 		}
 		c.Check(okW, "C13.2", FuncName(entry), "writer:"+CalleeName(d), d.Pos(),
 			"the delegate writes straight to the client's ResponseWriter (status, headers, body, trailers untouched)",
@@ -177,6 +209,30 @@ func runC13(c *Ctx) {
 			for _, cal := range callees {
 				for f := range p.Reach(cal) {
 					pre[f] = true
+				}
+			}
+		}
+		if entry != outer {
+			// what ServeHTTP itself calls before it hands over to the helper that holds its body
+			for _, call := range Calls(outer) {
+				if _, isDefer := call.(*ssa.Defer); isDefer || call.Common().StaticCallee() == entry {
+					continue
+				}
+				found, _ := MayReach(outer, call, func(in ssa.Instruction) bool {
+					ci, ok := in.(ssa.CallInstruction)
+					return ok && ci.Common().StaticCallee() == entry
+				})
+				if !found {
+					continue
+				}
+				callees := p.CalleesAt(call)
+				if len(callees) > 0 {
+					preCalls = append(preCalls, call)
+				}
+				for _, cal := range callees {
+					for f := range p.Reach(cal) {
+						pre[f] = true
+					}
 				}
 			}
 		}
@@ -557,4 +613,214 @@ func findRestoreSites(p *Prog, fn *ssa.Function, cell string) ([]ssa.Instruction
 		}
 	}
 	return out, save
+}
+
+// runC13RegistryLookupMatchesAdapter: C13.9 (seed C13j).  The gRPC wrapper advertises the "json"
+// codec to the transcoder only if the gRPC server can actually decode it, which it finds out by
+// asking grpc's codec registry.  The registry has two generations of API; a codec registered
+// through the one is invisible (nil) through the other's getter.  The wrapper package itself
+// fixes the generation: its exported adapter (the constructor the documentation tells users to
+// pass to the registry) returns ONE of grpc's codec interfaces, and the lookup must be the getter
+// that returns the same interface - otherwise a user who follows the documentation gets a
+// transcoder that silently re-encodes every JSON request to proto (or rejects the codec).
+// Type-level: result type of every grpc/encoding getter called == result type of the adapter.
+func runC13RegistryLookupMatchesAdapter(c *Ctx) {
+	p := c.P
+	c.Rule("C13.9", "the codec-registry lookup uses the same codec interface the package's adapter implements", 1)
+	const encPkg = "google.golang.org/grpc/encoding"
+	var adapterT types.Type
+	var adapter *ssa.Function
+	for _, fn := range p.Funcs {
+		if fn.Pkg == nil || fn.Pkg.Pkg.Path() != RootPath+"/vanguardgrpc" || fn.Signature.Recv() != nil || fn.Parent() != nil {
+			continue
+		}
+		if fn.Object() == nil || !fn.Object().Exported() || fn.Signature.Results().Len() != 1 {
+			continue
+		}
+		if nt, ok := fn.Signature.Results().At(0).Type().(*types.Named); ok && nt.Obj().Pkg() != nil && nt.Obj().Pkg().Path() == encPkg {
+			adapterT, adapter = nt, fn
+		}
+	}
+	if adapterT == nil {
+		c.Bad("C13.9", "vanguardgrpc", "lookup-matches-adapter", token.NoPos, "the wrapper package exports no constructor that returns one of grpc's codec interfaces: shape changed")
+		return
+	}
+	n := 0
+	for _, fn := range p.Funcs {
+		if fn.Pkg == nil || fn.Pkg.Pkg.Path() != RootPath+"/vanguardgrpc" {
+			continue
+		}
+		for _, call := range Calls(fn) {
+			sc := call.Common().StaticCallee()
+			if sc == nil || sc.Pkg == nil || sc.Pkg.Pkg.Path() != encPkg || sc.Signature.Results().Len() != 1 {
+				continue
+			}
+			rt, ok := sc.Signature.Results().At(0).Type().(*types.Named)
+			if !ok || rt.Obj().Pkg() == nil || rt.Obj().Pkg().Path() != encPkg {
+				continue
+			}
+			if _, isIface := rt.Underlying().(*types.Interface); !isIface || sc.Signature.Params().Len() != 1 {
+				continue
+			}
+			n++
+			c.Check(types.Identical(rt, adapterT), "C13.9", FuncName(fn), "lookup-matches-adapter", call.Pos(),
+				"the registry getter returns "+rt.Obj().Name()+", the interface "+N(adapter)+" implements",
+				"the registry is asked through "+N(sc)+" (returns "+rt.Obj().Name()+") but the package's own adapter "+N(adapter)+" produces a "+types.TypeString(adapterT, nil)+": a JSON codec registered the documented way is invisible to this getter, so the wrapper does not pass JSON through to the gRPC server although it could")
+		}
+	}
+	if n == 0 {
+		c.Bad("C13.9", "vanguardgrpc", "lookup-matches-adapter", token.NoPos, "the wrapper no longer consults grpc's codec registry: shape changed")
+	}
+}
+
+// runC13NotFoundIsTheSentinel: C13.10 (seed C13f).  The entry point hands a request to the
+// unknown-endpoint handler when the failure `errors.Is` one package-level sentinel - a pointer
+// identity.  So every "no such endpoint" produced on the way to the dispatch must BE that
+// sentinel: a second *httpError with the sentinel's status (a friendlier 404 with a message) is
+// answered by the transcoder itself and the configured handler never sees the request.  Decided
+// by construction sites: outside the sentinel's initialiser, no request-time function builds an
+// httpError whose status is the constant the sentinel carries.
+func runC13NotFoundIsTheSentinel(c *Ctx) {
+	p := c.P
+	c.Rule("C13.10", "a not-found outcome is the sentinel the unknown-endpoint delegation matches", 1)
+	entry := entryBody(p)
+	// the sentinel: a package-level value the entry point passes to errors.Is
+	var sentinels []*ssa.Global
+	for _, call := range Calls(entry) {
+		if !IsCallTo(call, "errors.Is") {
+			continue
+		}
+		for _, o := range Origins(call.Common().Args[1]) {
+			if g, ok := globalOf(o.V); ok && g.Pkg == p.Root {
+				sentinels = append(sentinels, g)
+			}
+		}
+	}
+	if len(sentinels) == 0 {
+		c.Bad("C13.10", FuncName(entry), "not-found-is-sentinel", entry.Pos(), "the entry point no longer matches a package-level sentinel with errors.Is: shape changed")
+		return
+	}
+	codeFld := p.MustField("httpError", "code")
+	// the status the sentinel carries: the constant stored into its code field by the package initialiser
+	codes := map[int64]bool{}
+	initFn := p.Root.Func("init")
+	for _, st := range StoresToField(initFn, codeFld) {
+		fa := st.Addr.(*ssa.FieldAddr)
+		// is this literal stored into one of the sentinels?
+		for _, ref := range *fa.X.Referrers() {
+			if st2, ok := ref.(*ssa.Store); ok && st2.Val == fa.X {
+				if g, isG := st2.Addr.(*ssa.Global); isG {
+					for _, s := range sentinels {
+						if g == s {
+							if k, isK := ConstInt(st.Val); isK {
+								codes[k] = true
+							}
+						}
+					}
+				}
+			}
+		}
+	}
+	if len(codes) == 0 {
+		c.Bad("C13.10", "init", "not-found-is-sentinel", token.NoPos, "could not read the status constant of the not-found sentinel from the package initialiser")
+		return
+	}
+	reach := p.RequestTimeReach()
+	ctors := map[*ssa.Function]int{} // constructor -> index of the parameter stored into code
+	for _, fn := range p.Funcs {
+		if !p.inScope(fn) {
+			continue
+		}
+		for _, st := range StoresToField(fn, codeFld) {
+			if prm, ok := st.Val.(*ssa.Parameter); ok {
+				for i, q := range fn.Params {
+					if q == prm {
+						ctors[fn] = i
+					}
+				}
+			}
+		}
+	}
+	n := 0
+	for _, fn := range SortedFuncs(reach) {
+		if !p.inScope(fn) || fn == initFn {
+			continue
+		}
+		for _, st := range StoresToField(fn, codeFld) {
+			if k, isK := ConstInt(st.Val); isK {
+				n++
+				c.Check(!codes[k], "C13.10", FuncName(fn), "not-found-is-sentinel", st.Pos(),
+					"an httpError literal with a status other than the sentinel's",
+					"a second httpError with the not-found status is built here: the entry point delegates to the unknown-endpoint handler only for the sentinel itself (errors.Is = identity), so this 'no such endpoint' is answered by the transcoder instead of being forwarded untouched")
+			}
+		}
+		for _, call := range Calls(fn) {
+			sc := call.Common().StaticCallee()
+			idx, isCtor := ctors[sc]
+			if sc == nil || !isCtor {
+				continue
+			}
+			if k, isK := ConstInt(call.Common().Args[idx]); isK {
+				n++
+				c.Check(!codes[k], "C13.10", FuncName(fn), "not-found-is-sentinel", call.Pos(),
+					"an httpError constructed with a status other than the sentinel's",
+					"a second httpError with the not-found status is constructed here: the entry point delegates to the unknown-endpoint handler only for the sentinel itself (errors.Is = identity), so this 'no such endpoint' is answered by the transcoder instead of being forwarded untouched")
+			}
+		}
+	}
+	_ = n
+}
+
+// runC13ClassificationIgnoresParseErrors: C13.11 (seed C13l).  Classifying the client's protocol
+// happens before endpoint resolution and before the pass-through decision, so "cannot classify"
+// (415) also hits requests the middleware should merely forward: unmatched paths owed to the
+// unknown-endpoint handler, REST requests to a REST target.  Classification therefore looks at
+// the Content-Type, the method and the presence of query parameters only; a query string that
+// does not parse cleanly ("?v=1;lang=en", a stray '%') is somebody else's business.  Structural:
+// the classifier (the function that yields the client protocol handler from the request) has no
+// branch on an error value.
+func runC13ClassificationIgnoresParseErrors(c *Ctx) {
+	p := c.P
+	c.Rule("C13.11", "protocol classification never fails because something did not parse", 1)
+	cph := p.Iface("clientProtocolHandler")
+	n := 0
+	for _, fn := range p.Funcs {
+		if !p.inScope(fn) || fn.Parent() != nil || len(fn.Params) != 1 || !isPtrTo(fn.Params[0].Type(), "net/http", "Request") {
+			continue
+		}
+		res := fn.Signature.Results()
+		if res.Len() == 0 || cph == nil || !types.Identical(res.At(0).Type().Underlying(), cph) {
+			continue
+		}
+		n++
+		bad := token.NoPos
+		badWhat := ""
+		for _, b := range fn.Blocks {
+			iff, ok := b.Instrs[len(b.Instrs)-1].(*ssa.If)
+			if !ok {
+				continue
+			}
+			bo, ok := iff.Cond.(*ssa.BinOp)
+			if !ok {
+				continue
+			}
+			for _, side := range []ssa.Value{bo.X, bo.Y} {
+				if isErrorType(side.Type()) && !IsNilConst(side) {
+					bad = bo.Pos()
+					badWhat = side.String()
+					if ex, isEx := side.(*ssa.Extract); isEx {
+						if call, isCall := ex.Tuple.(*ssa.Call); isCall {
+							badWhat = CalleeName(call)
+						}
+					}
+				}
+			}
+		}
+		c.Check(bad == token.NoPos, "C13.11", FuncName(fn), "classification-has-no-error-branch", fn.Pos(),
+			"the classifier does not branch on any error value",
+			"the protocol classifier branches on the error of "+badWhat+" ("+p.Pos(bad)+"): a request whose query string (or other detail) does not parse cleanly becomes 'unclassifiable' and is answered 415 by the middleware - before endpoint resolution and before the pass-through decision, so also for requests that were to be forwarded untouched")
+	}
+	if n == 0 {
+		c.Bad("C13.11", "package", "classification-has-no-error-branch", token.NoPos, "no function classifies a request into a client protocol handler: shape changed")
+	}
 }
